@@ -300,6 +300,26 @@ def sc_multihome(name, seed, n=120):
     return Scenario(name, s.lines)
 
 
+def campaign_xtlv(seed, tier):
+    rng = random.Random(seed)
+    scs = []
+    for i in range(12 if tier == "quick" else 200):
+        s = Script()
+        for _ in range(20):
+            hw = rng.choice([b"", b"A\x00", bytes(range(1, 63)), bytes(range(1, 65)), bytes(rng.randrange(1, 256) for _ in range(rng.randrange(0, 65)))])
+            s.cfg(host=b"h", icon=None, name=None, hwid=hw, uuid=rng.choice([None, bytes(rng.randrange(256) for _ in range(16)), bytes(16)]))
+            wifi = rng.choice([0, 1])
+            at = rnd_attrs(rng, wifi)
+            at["phy"] = rng.choice([0, 1, 7, 0x100, 0xFFFF, 0x10000, 0x80000000, 0xFFFFFFFF, rng.randrange(1 << 32)])
+            s.boot(1, rnd_mac(rng), mtu=1500, wifi=wifi, fill=0xA5, **at)
+            if rng.random() < 0.3:
+                s.fault(get=rng.choice([1 << 5, 1 << 15, 1 << 16, (1 << 5) | (1 << 15) | (1 << 16)]))
+            s.lines.append("TLV 1 %d %d" % (rng.choice([0, 1, 46, 100, 333]), rng.choice([0, 0xFF, 0x5A, 0x13])))
+            s.clear()
+        scs.append(Scenario("xtlv-%d" % i, s.lines))
+    return scs
+
+
 def sc_header_sweep(name, tos_list, ops, context, ver=1, dst_own=True):
     """one frame per (service byte, opcode) with a plausible body, from nobody / the bound mapper / a stranger;
     a Reset of both services in between keeps every frame's context the same"""
